@@ -285,6 +285,33 @@ def builtin_call(ex, ev: Eval, node, fname):
     if fname == "abs":
         v = ev.expr(a[0])
         return V(v.t, z3.If(v.z >= 0, v.z, -v.z))
+    if fname in ("min", "max") and len(a) == 1:
+        xs = ev.expr(a[0])
+        if isinstance(xs.t, TList):
+            kw = {k.arg: k.value for k in node.keywords}
+            ev.ob("min-nonempty", list_len(xs) > 0, node)
+            i = ex.new_sym(INT, "argm", ev.st)
+            r = V(xs.t.elem, z3.Select(list_arr(xs), i.z))
+            ev.st.pc.append(z3.And(0 <= i.z, i.z < list_len(xs)))
+
+            def keyof(elem):
+                if "key" not in kw:
+                    return elem
+                kf = kw["key"]
+                if (isinstance(kf, ast.Call) and isinstance(kf.func, ast.Name) and kf.func.id == "attrgetter"
+                        and len(kf.args) == 1 and isinstance(kf.args[0], ast.Constant)):
+                    return ex.attribute(ev, elem, kf.args[0].value, kf)
+                if isinstance(kf, ast.Lambda) and len(kf.args.args) == 1:
+                    return Eval(ex, ev.st, ev.spec, {**ev.bound, kf.args.args[0].arg: elem}, ev.old, ev.result).expr(kf.body)
+                raise Unsupported("min/max key")
+
+            j = z3.Int("j!argm")
+            kj, kr = keyof(V(xs.t.elem, z3.Select(list_arr(xs), j))), keyof(r)
+            if kj.t not in (INT, REAL):
+                raise Unsupported("min/max key type")
+            ev.st.pc.append(z3.ForAll([j], z3.Implies(z3.And(0 <= j, j < list_len(xs)), (kr.z <= kj.z) if fname == "min" else (kr.z >= kj.z)),
+                                      patterns=[z3.Select(list_arr(xs), j)]))
+            return r
     if fname in ("min", "max") and len(a) >= 2 and not node.keywords:
         vs = [ev.expr(x) for x in a]
         r = vs[0]
@@ -411,6 +438,19 @@ def method_call(ex, ev: Eval, node, recv_node, meth):
                 i = ex.new_sym(INT, "rndc", ev.st)
                 ev.st.pc.append(z3.And(i.z >= 0, i.z < list_len(lst)))
                 return V(lst.t.elem, z3.Select(list_arr(lst), i.z))
+        if meth == "sample" and len(a) == 2:
+            lst, kk = ev.expr(a[0]), ev.expr(a[1])
+            if isinstance(lst.t, TList) and kk.t == INT:
+                ev.ob("sample-size", z3.And(kk.z >= 0, kk.z <= list_len(lst)), node)
+                r = ex.new_sym(lst.t, "sample", ev.st)
+                pos = fresh(TMap(INT, INT), "sample_pos")
+                j = z3.Int("j!sample")
+                ev.st.pc.append(list_len(r) == kk.z)
+                ev.st.pc.append(z3.ForAll([j], z3.Implies(z3.And(0 <= j, j < kk.z),
+                                                          z3.And(0 <= z3.Select(pos.z, j), z3.Select(pos.z, j) < list_len(lst),
+                                                                 z3.Select(list_arr(r), j) == z3.Select(list_arr(lst), z3.Select(pos.z, j)))),
+                                          patterns=[z3.Select(list_arr(r), j)]))
+                return r
         if meth == "shuffle" and len(a) == 1 and isinstance(a[0], (ast.Name, ast.Attribute)):
             lst = ev.expr(a[0])
             if isinstance(lst.t, TList):
@@ -438,6 +478,12 @@ def method_call(ex, ev: Eval, node, recv_node, meth):
             ev.ob("bounds", ln > 0, node)
             _store_back(ex, ev, recv_node, mk_list(recv.t, ln - 1, arr))
             return V(recv.t.elem, z3.Select(arr, ln - 1))
+        if meth == "sort":
+            if ev.guard:
+                raise Unsupported("effect under short-circuit")
+            r = do_sorted(ex, ev, node, xs_value=recv)
+            _store_back(ex, ev, recv_node, r)
+            return V(NONE, z3.BoolVal(True))
         if meth == "copy" and not a:
             return recv
         if meth == "reverse" and not a:
@@ -499,10 +545,10 @@ def dict_values_list(ex, ev, d: V):
     return out
 
 
-def do_sorted(ex, ev, node):
+def do_sorted(ex, ev, node, xs_value=None):
     """sorted(xs[, key=lambda e: e[c]][, reverse=True]): a list of the same length whose k-th element is
     xs[perm[k]] (ghost index map `_perm`), ordered by the key.  (Injectivity of perm is not stated.)"""
-    xs = ev.expr(node.args[0])
+    xs = xs_value if xs_value is not None else ev.expr(node.args[0])
     if not isinstance(xs.t, TList):
         raise Unsupported("sorted over " + str(xs.t))
     kw = {k.arg: k.value for k in node.keywords}
@@ -518,10 +564,21 @@ def do_sorted(ex, ev, node):
                                                      z3.Select(ra, k) == z3.Select(list_arr(xs), z3.Select(perm.z, k)))),
                               patterns=[z3.Select(ra, k)]))
 
+    inv = fresh(TMap(INT, INT), "perm_inv")
+    j_ = z3.Int("j!sorted")
+    # every input element appears in the output (sorted returns a permutation)
+    ev.st.pc.append(z3.ForAll([j_], z3.Implies(z3.And(0 <= j_, j_ < n),
+                                               z3.And(0 <= z3.Select(inv.z, j_), z3.Select(inv.z, j_) < n,
+                                                      z3.Select(ra, z3.Select(inv.z, j_)) == z3.Select(list_arr(xs), j_))),
+                              patterns=[z3.Select(list_arr(xs), j_)]))
+
     def keyof(elem: V):
         if "key" not in kw:
             return elem
         lam = kw["key"]
+        if (isinstance(lam, ast.Call) and isinstance(lam.func, ast.Name) and lam.func.id == "attrgetter"
+                and len(lam.args) == 1 and isinstance(lam.args[0], ast.Constant)):
+            return ex.attribute(ev, elem, lam.args[0].value, lam)
         if not (isinstance(lam, ast.Lambda) and len(lam.args.args) == 1):
             raise Unsupported("sorted key")
         sub = Eval(ex, ev.st, ev.spec, {**ev.bound, lam.args.args[0].arg: elem}, ev.old, ev.result)
@@ -539,11 +596,48 @@ def do_sorted(ex, ev, node):
 
 
 def do_slice(ex, ev, base, sl, node):
+    if isinstance(base.t, TList) and sl.lower is None and sl.step is None and sl.upper is not None:
+        # xs[:k] with k >= 0: the first min(k, len) elements
+        k = ev.expr(sl.upper)
+        if k.t != INT:
+            raise Unsupported("slice bound")
+        ev.ob("slice-nonneg", k.z >= 0, node)
+        ln = list_len(base)
+        return mk_list(base.t, z3.If(k.z < ln, k.z, ln), list_arr(base))
     raise Unsupported("slice " + ast.unparse(node)[:40])
 
 
 def do_listcomp(ex, ev, node):
-    raise Unsupported("list comprehension " + ast.unparse(node)[:40])
+    """[elt for x in seq (if c)]  ==  tmp = []; for x in seq: (if c:) tmp.append(elt)   executed as a loop cut at the
+    invariant the sidecar gives for this comprehension's loop ordinal (the list under construction is `_comp<k>`)"""
+    if len(node.generators) != 1 or node.generators[0].is_async:
+        raise Unsupported("comprehension with several generators")
+    gen = node.generators[0]
+    k = ex.loop_ord[id(node)]
+    name = f"_comp{k}"
+    hint = ex.spec.types.get(name)
+    if hint is None:
+        raise Unsupported(f"declare the element type of the comprehension as types['{name}']")
+    t = ex.ptype(hint)
+    st = ev.st
+    st.vars[name] = mk_list(t, z3.IntVal(0), fresh(TMap(INT, t.elem), "compinit").z)
+    app = ast.Expr(ast.Call(func=ast.Attribute(value=ast.Name(id=name, ctx=ast.Load()), attr="append", ctx=ast.Load()),
+                            args=[node.elt], keywords=[]))
+    body = [app]
+    for cond in reversed(gen.ifs):
+        body = [ast.If(test=cond, body=body, orelse=[])]
+    loop = ast.For(target=gen.target, iter=gen.iter, body=body, orelse=[])
+    for n_ in ast.walk(loop):
+        ast.copy_location(n_, node)
+    ast.fix_missing_locations(loop)
+    ex.loop_ord[id(loop)] = k
+    from .forloops import exec_for
+    exits = exec_for(ex, loop, st)
+    normal = [e for e in exits if e[1] == "normal"]
+    if len(normal) != 1 or len(exits) != 1:
+        raise Unsupported("comprehension body leaves the loop abnormally")
+    st.vars, st.pc, st.unbound = normal[0][0].vars, normal[0][0].pc, normal[0][0].unbound
+    return st.vars[name]
 
 
 # ---------------------------------------------------------------------- calls by contract
